@@ -46,8 +46,12 @@ struct Plan {
     bool descending;
     bool keys_reach_sentinel;             // real keys may be equal to the constructor sentinel
     std::vector<std::vector<int> > keys;  // per player, sorted by the order
+    std::vector<unsigned> reg_order;      // order in which the players are registered with insert_start()
+    bool slot_feeding = false;            // keys are handed over through one reused slot per player
     std::string str() const {
         std::string s = "k=" + std::to_string(k) + (descending ? " greater" : " less");
+        if (slot_feeding) s += " slot-feeding";
+        if (!std::is_sorted(reg_order.begin(), reg_order.end())) s += " registration order " + verif::join_range(reg_order.begin(), reg_order.end());
         for (auto& v : keys) s += " [" + verif::join_range(v.begin(), v.end()) + "]";
         return s;
     }
@@ -77,6 +81,10 @@ static Plan make_plan(Rng& rng, bool unguarded) {
         }
     }
     if (!unguarded && rng.chance(1, 15)) for (auto& v : p.keys) v.clear();   // all exhausted from the start
+    p.reg_order.resize(p.k);
+    for (unsigned i = 0; i < p.k; ++i) p.reg_order[i] = i;
+    if (rng.chance(1, 3)) { if (rng.coin()) std::reverse(p.reg_order.begin(), p.reg_order.end()); else std::shuffle(p.reg_order.begin(), p.reg_order.end(), rng); }
+    p.slot_feeding = rng.chance(1, 3);
     return p;
 }
 
@@ -90,8 +98,17 @@ static void play(Tree& tree, const Plan& p, Cmp cmp, bool stable, bool unguarded
     for (unsigned i = 0; i < k; ++i) for (int key : p.keys[i]) streams[i].push_back(T(key));
     std::vector<size_t> cur(k, 0);
     auto live = [&](unsigned i) { return cur[i] < streams[i].size(); };
-    for (unsigned i = 0; i < k; ++i) {
-        if (live(i)) tree.insert_start(&streams[i][0], i, false);
+    // slot feeding: the caller keeps one look-ahead slot per player and refills it in place, so the
+    // pointer handed to the tree for a player is always the same
+    std::vector<T> slot(p.slot_feeding ? k : 0);
+    auto keyp = [&](unsigned i) -> const T* {
+        if (!p.slot_feeding) return &streams[i][cur[i]];
+        slot[i] = streams[i][cur[i]];
+        return &slot[i];
+    };
+    for (unsigned r = 0; r < k; ++r) {
+        unsigned i = p.reg_order[r];
+        if (live(i)) tree.insert_start(keyp(i), i, false);
         else tree.insert_start(nullptr, i, true);
     }
     tree.init();
@@ -125,14 +142,15 @@ static void play(Tree& tree, const Plan& p, Cmp cmp, bool stable, bool unguarded
         }
         // consume the winner's key, feed its next one
         ++cur[s];
-        if (live(s)) tree.delete_min_insert(&streams[s][cur[s]], false);
+        if (live(s)) tree.delete_min_insert(keyp(s), false);
         else {
             if (unguarded) break;   // documented precondition: no player runs out of keys
             tree.delete_min_insert(nullptr, true);
         }
     }
     verif::cover(vname + ":k=" + (k <= 17 ? std::to_string(k) : k <= 33 ? "31-33" : "34+") +
-                 (initially_exhausted ? ":init-exhausted" : "") + (p.keys_reach_sentinel ? ":keys=sentinel" : ""));
+                 (initially_exhausted ? ":init-exhausted" : "") + (p.keys_reach_sentinel ? ":keys=sentinel" : "") +
+                 (p.slot_feeding ? ":slot-feeding" : "") + (std::is_sorted(p.reg_order.begin(), p.reg_order.end()) ? "" : ":shuffled-registration"));
 }
 
 template <typename T>
